@@ -24,8 +24,10 @@ TrReset == IsEvent("Reset") /\ obs' = NoObs /\ saved' = <<>>
 
 TrOpen == IsEvent("Open") /\ Open(Ev.files) /\ obs' = NoObs /\ UNCHANGED saved
 
-TrAppend == IsEvent("Append") /\ Ev.ok /\ AppendOK(Ev.id, Ev.epoch, Ev.size, Ev.file)
-            /\ obs' = NoObs /\ UNCHANGED saved
+\* total: the model follows the file the bytes really landed in; whether that file is the one the rotation rule prescribes is a
+\* conformance clause, and what a wrong target does to durability is judged by the C11 clauses on the next All()
+TrAppend == IsEvent("Append") /\ Ev.ok /\ AppendAny(Ev.id, Ev.epoch, Ev.size, Ev.file)
+            /\ obs' = [kind |-> "Append", targetOK |-> AppendTargetOK(Ev.file)] /\ UNCHANGED saved
 
 TrFlush == (IsEvent("Rotate") \/ IsEvent("Close")) /\ Flush /\ obs' = NoObs /\ UNCHANGED saved
 
@@ -82,18 +84,19 @@ C11_PurgeKeepsActive == obs.kind = "Purge" => ~obs.activeGone  \* entries of the
 \* ------------------------------------------------------------------ conformance
 Conf_AllExact == (obs.kind = "All" /\ inflight = 0) => obs.ids = All
 Conf_Purge == obs.kind = "Purge" => obs.gone = obs.pred
+Conf_AppendTarget == obs.kind = "Append" => obs.targetOK
 
 \* ------------------------------------------------------------------ verdict plumbing
 \* Clauses are evaluated by TLC in the successor state of every consumed event; failures are
 \* accumulated in `bad` (and printed at once) instead of stopping TLC, so that one run reports
 \* every failing (line, clause) of a long trace without printing 10^5-state counterexamples.
 Clauses == {"C11_Durable", "C11_Intact", "C11_NoPhantom", "C11_OrderWithinFile", "C11_PurgeSafe",
-            "C11_PurgeComplete", "C11_PurgeKeepsActive", "Conf_AllExact", "Conf_Purge"}
+            "C11_PurgeComplete", "C11_PurgeKeepsActive", "Conf_AllExact", "Conf_Purge", "Conf_AppendTarget"}
 Holds(c) == CASE c = "C11_Durable" -> C11_Durable [] c = "C11_Intact" -> C11_Intact
               [] c = "C11_NoPhantom" -> C11_NoPhantom [] c = "C11_OrderWithinFile" -> C11_OrderWithinFile
               [] c = "C11_PurgeSafe" -> C11_PurgeSafe [] c = "C11_PurgeComplete" -> C11_PurgeComplete
               [] c = "C11_PurgeKeepsActive" -> C11_PurgeKeepsActive
-              [] c = "Conf_AllExact" -> Conf_AllExact [] c = "Conf_Purge" -> Conf_Purge
+              [] c = "Conf_AllExact" -> Conf_AllExact [] c = "Conf_Purge" -> Conf_Purge [] c = "Conf_AppendTarget" -> Conf_AppendTarget
 TStep == /\ TNext
          /\ LET nb == {c \in Clauses : ~(Holds(c))'} IN
               /\ bad' = bad \cup {<<l, c>> : c \in nb}
